@@ -269,6 +269,7 @@ static json do_ip(const json &c) {
 	return o;
 }
 
+static json do_big(const json &c);
 static int run_cases(const char *in, const char *outp) {
 	std::ifstream f(in);
 	std::ofstream out(outp);
@@ -286,6 +287,7 @@ static int run_cases(const char *in, const char *outp) {
 		else if (fam == "sqp") o = do_sqp(c);
 		else if (fam == "sqn") o = do_sqn(c);
 		else if (fam == "ip") o = do_ip(c);
+		else if (fam == "big") o = do_big(c);
 		else { o["f"] = "?"; }
 		o["i"] = n++;
 		out << o.dump() << "\n";
@@ -422,94 +424,121 @@ struct Regs {
 static const long REFUSED = -2000000000L;       // wrapper events: the call threw (pv / sv); -1 in comparison vectors
 template <class F> static json bguard(F f, long code = -1) { try { return f(); } catch (const std::exception &) { return json(code); } }
 static const long BIG = 1L << 30;
+struct OpSpec { std::string op; int d, s, t; long u; bool mixed; };
+// harness-side guard of the seeded exploration: keeps values below 2^30 (TLC integers) and divisors positive
+static bool admissible(Regs &R, const OpSpec &o) {
+	long vd = R.pv(o.d), vs = R.pv(o.s), vt = R.pv(o.t), u = o.u;
+	const std::string &op = o.op;
+	if (op == "add" || op == "sub") return labs(vd) + labs(vs) < BIG;
+	if (op == "add_ui" || op == "sub_ui") return labs(vd) + u < BIG;
+	if (op == "mul") return labs(vd) < 32768 && labs(vs) < 32768;
+	if (op == "mul_ui") return labs(vd) < 32768 && u < 32768;
+	if (op == "div" || op == "mod") return vd >= 0 && vs > 0;
+	if (op == "div_ui" || op == "mod_ui") return vd >= 0 && u > 0;
+	if (op == "mul2exp") return vd >= 0 && u <= 12 && vd < (BIG >> u);
+	if (op == "div2exp") return vd >= 0 && u <= 30;
+	if (op == "powm") return vs >= 0 && vt >= 0 && vd >= 2 && vd <= 46337;
+	if (op == "powm_ui") return vs >= 0 && vd >= 2 && vd <= 46337;
+	return true;
+}
+static json cmpvec(TMCG_Bigint &a, TMCG_Bigint &b) {
+	json c = json::array();
+	c.push_back(bguard([&]() { return json((a == b) ? 1 : 0); })); c.push_back(bguard([&]() { return json((a != b) ? 1 : 0); }));
+	c.push_back(bguard([&]() { return json((a > b) ? 1 : 0); }));  c.push_back(bguard([&]() { return json((a < b) ? 1 : 0); }));
+	c.push_back(bguard([&]() { return json((a >= b) ? 1 : 0); })); c.push_back(bguard([&]() { return json((a <= b) ? 1 : 0); }));
+	return c;
+}
+static json cmpvec_ui(TMCG_Bigint &a, unsigned long uu) {
+	json c = json::array();
+	c.push_back(bguard([&]() { return json((a > uu) ? 1 : 0); }));  c.push_back(bguard([&]() { return json((a < uu) ? 1 : 0); }));
+	c.push_back(bguard([&]() { return json((a >= uu) ? 1 : 0); })); c.push_back(bguard([&]() { return json((a <= uu) ? 1 : 0); }));
+	c.push_back(bguard([&]() { return json((a == uu) ? 1 : 0); }));
+	return c;
+}
+// one wrapper operation on the plain and on the secure register file; everything observable is reported
+static json exec_op(Regs &R, const OpSpec &o) {
+	int d = o.d, s = o.s, t = o.t;
+	unsigned long uu = (unsigned long)o.u;
+	bool mixed = o.mixed;            // secure destination, plain operand
+	const std::string &op = o.op;
+	json e; e["e"] = "big"; e["op"] = op; e["d"] = d; e["s"] = s; e["t"] = t; e["u"] = o.u; e["mx"] = mixed ? 1 : 0;
+	TMCG_Bigint P_s(*R.p[s]);          // the plain operand as it is before the call (d may be s)
+	#define BOTH(PEXPR, SEXPR) { e["pv"] = bguard([&]() { PEXPR; return R.pj(d); }, REFUSED); e["sv"] = bguard([&]() { SEXPR; return R.sj(d); }, REFUSED); \
+		if (e["sv"] == json(REFUSED) && e["pv"] != json(REFUSED)) { try { *R.s[d] = *R.p[d]; } catch (const std::exception &) {} } }   /* keep the files in step after a documented refusal */
+	if (op == "set_ui") BOTH(*R.p[d] = uu, *R.s[d] = uu)
+	else if (op == "set") BOTH(*R.p[d] = *R.p[s], if (mixed) *R.s[d] = P_s; else *R.s[d] = *R.s[s])
+	else if (op == "add") BOTH(*R.p[d] += *R.p[s], if (mixed) *R.s[d] += P_s; else *R.s[d] += *R.s[s])
+	else if (op == "add_ui") BOTH(*R.p[d] += uu, *R.s[d] += uu)
+	else if (op == "sub") BOTH(*R.p[d] -= *R.p[s], if (mixed) *R.s[d] -= P_s; else *R.s[d] -= *R.s[s])
+	else if (op == "sub_ui") BOTH(*R.p[d] -= uu, *R.s[d] -= uu)
+	else if (op == "mul") BOTH(*R.p[d] *= *R.p[s], if (mixed) *R.s[d] *= P_s; else *R.s[d] *= *R.s[s])
+	else if (op == "mul_ui") BOTH(*R.p[d] *= uu, *R.s[d] *= uu)
+	else if (op == "div") BOTH(*R.p[d] /= *R.p[s], if (mixed) *R.s[d] /= P_s; else *R.s[d] /= *R.s[s])
+	else if (op == "div_ui") BOTH(*R.p[d] /= uu, *R.s[d] /= uu)
+	else if (op == "mod") BOTH(*R.p[d] %= *R.p[s], if (mixed) *R.s[d] %= P_s; else *R.s[d] %= *R.s[s])
+	else if (op == "mod_ui") BOTH(*R.p[d] %= uu, *R.s[d] %= uu)
+	else if (op == "neg") BOTH(-(*R.p[d]), -(*R.s[d]))
+	else if (op == "abs") BOTH(R.p[d]->abs(), R.s[d]->abs())
+	else if (op == "mul2exp") BOTH(R.p[d]->mul2exp((size_t)uu), R.s[d]->mul2exp((size_t)uu))
+	else if (op == "div2exp") BOTH(R.p[d]->div2exp((size_t)uu), R.s[d]->div2exp((size_t)uu))
+	else if (op == "powm") { TMCG_Bigint pm(*R.p[d]); TMCG_Bigint sm(*R.s[d]);          // d = s^t mod d
+		BOTH(R.p[d]->powm(*R.p[s], *R.p[t], pm), R.s[d]->powm(*R.s[s], *R.s[t], sm)) }
+	else if (op == "powm_ui") { TMCG_Bigint pm(*R.p[d]); TMCG_Bigint sm(*R.s[d]);
+		BOTH(R.p[d]->powm_ui(*R.p[s], uu, pm), R.s[d]->powm_ui(*R.s[s], uu, sm)) }
+	else if (op == "cmp") { e["pc"] = cmpvec(*R.p[d], *R.p[s]); e["sc"] = cmpvec(*R.s[d], *R.s[s]); e["pv"] = R.pj(d); e["sv"] = R.sj(d); }
+	else {           // "obs": comparisons with a word, size, get_ui, primality
+		long vd = R.pv(d);
+		e["pc"] = cmpvec_ui(*R.p[d], uu); e["sc"] = cmpvec_ui(*R.s[d], uu);
+		e["psz"] = (long)R.p[d]->size(2); e["ssz"] = (long)R.s[d]->size(2);
+		if (vd >= 0) { e["pui"] = (long)R.p[d]->get_ui(); e["sui"] = (long)R.s[d]->get_ui(); e["ppr"] = R.p[d]->probab_prime(TMCG_MR_ITERATIONS) ? 1 : 0; }
+		else { e["pui"] = -1; e["sui"] = -1; e["ppr"] = -1; }
+		e["pv"] = R.pj(d); e["sv"] = R.sj(d);
+	}
+	#undef BOTH
+	json pr = json::array(), sr = json::array();          // the registers as they are now (projection of the whole state)
+	for (int i = 0; i < NREG; i++) { pr.push_back(R.pj(i)); sr.push_back(R.sj(i)); }
+	e["pr"] = pr; e["sr"] = sr;
+	return e;
+}
+static const char *OPS[] = {"set_ui", "set_ui", "set", "add", "add", "add_ui", "sub", "sub", "sub_ui", "mul", "mul", "mul_ui", "div", "div", "div_ui",
+	"mod", "mod", "mod_ui", "neg", "abs", "mul2exp", "div2exp", "powm", "powm_ui", "cmp", "obs"};
 static void rec_big(int tier) {
 	int nexec = tier ? 600 : 60, len = tier ? 60 : 40;
 	for (int x = 0; x < nexec; x++) {
 		reset_ev("big", x);
 		Regs R;
 		for (int st = 0; st < len; st++) {
-			int d = (int)rnd(NREG), s = (int)rnd(NREG), t = (int)rnd(NREG);
-			long vd = R.pv(d), vs = R.pv(s), vt = R.pv(t);
-			int opi = (int)rnd(st < 4 ? 2 : 26);
-			TMCG_Bigint P_s(*R.p[s]);          // the plain operand as it is before the call (d may be s)
-			json e; e["e"] = "big"; e["d"] = d; e["s"] = s; e["t"] = t; e["u"] = 0; e["mx"] = 0;
-			bool mixed = rnd(4) == 0;        // secure destination, plain operand
-			const char *op = NULL;
-			long u = 0;
-			#define BOTH(PEXPR, SEXPR) { e["pv"] = bguard([&]() { PEXPR; return R.pj(d); }, REFUSED); e["sv"] = bguard([&]() { SEXPR; return R.sj(d); }, REFUSED); \
-				if (e["sv"] == json(REFUSED) && e["pv"] != json(REFUSED)) { try { *R.s[d] = *R.p[d]; } catch (const std::exception &) {} } }   /* keep the files in step after a documented refusal */
-			switch (opi) {
-			case 0: case 1: op = "set_ui"; u = (rnd(3) == 0) ? rrange(0, 12) : rrange(0, 32767); if (rnd(9) == 0) u = rrange(0, BIG - 1);
-				BOTH(*R.p[d] = (unsigned long)u, *R.s[d] = (unsigned long)u); break;
-			case 2: op = "set"; if (mixed) e["mx"] = 1;
-				BOTH(*R.p[d] = *R.p[s], if (mixed) *R.s[d] = P_s; else *R.s[d] = *R.s[s]); break;
-			case 3: case 4: op = "add"; if (labs(vd) + labs(vs) >= BIG) continue; if (mixed) e["mx"] = 1;
-				BOTH(*R.p[d] += *R.p[s], if (mixed) *R.s[d] += P_s; else *R.s[d] += *R.s[s]); break;
-			case 5: op = "add_ui"; u = rrange(0, 40000); if (labs(vd) + u >= BIG) continue;
-				BOTH(*R.p[d] += (unsigned long)u, *R.s[d] += (unsigned long)u); break;
-			case 6: case 7: op = "sub"; if (labs(vd) + labs(vs) >= BIG) continue; if (mixed) e["mx"] = 1;
-				BOTH(*R.p[d] -= *R.p[s], if (mixed) *R.s[d] -= P_s; else *R.s[d] -= *R.s[s]); break;
-			case 8: op = "sub_ui"; u = rrange(0, 40000); if (labs(vd) + u >= BIG) continue;
-				BOTH(*R.p[d] -= (unsigned long)u, *R.s[d] -= (unsigned long)u); break;
-			case 9: case 10: op = "mul"; if (labs(vd) >= 32768 || labs(vs) >= 32768) continue; if (mixed) e["mx"] = 1;
-				BOTH(*R.p[d] *= *R.p[s], if (mixed) *R.s[d] *= P_s; else *R.s[d] *= *R.s[s]); break;
-			case 11: op = "mul_ui"; u = rrange(0, 32767); if (labs(vd) >= 32768) continue;
-				BOTH(*R.p[d] *= (unsigned long)u, *R.s[d] *= (unsigned long)u); break;
-			case 12: case 13: op = "div"; if (vd < 0 || vs <= 0) continue; if (mixed) e["mx"] = 1;
-				BOTH(*R.p[d] /= *R.p[s], if (mixed) *R.s[d] /= P_s; else *R.s[d] /= *R.s[s]); break;
-			case 14: op = "div_ui"; u = rrange(1, 300); if (vd < 0) continue;
-				BOTH(*R.p[d] /= (unsigned long)u, *R.s[d] /= (unsigned long)u); break;
-			case 15: case 16: op = "mod"; if (vd < 0 || vs <= 0) continue; if (mixed) e["mx"] = 1;
-				BOTH(*R.p[d] %= *R.p[s], if (mixed) *R.s[d] %= P_s; else *R.s[d] %= *R.s[s]); break;
-			case 17: op = "mod_ui"; u = rrange(1, 40000); if (vd < 0) continue;
-				BOTH(*R.p[d] %= (unsigned long)u, *R.s[d] %= (unsigned long)u); break;
-			case 18: op = "neg"; BOTH(-(*R.p[d]), -(*R.s[d])); break;
-			case 19: op = "abs"; BOTH(R.p[d]->abs(), R.s[d]->abs()); break;
-			case 20: op = "mul2exp"; u = rrange(0, 12); if (vd < 0 || vd >= (BIG >> u)) continue;
-				BOTH(R.p[d]->mul2exp((size_t)u), R.s[d]->mul2exp((size_t)u)); break;
-			case 21: op = "div2exp"; u = rrange(0, 12); if (vd < 0) continue;
-				BOTH(R.p[d]->div2exp((size_t)u), R.s[d]->div2exp((size_t)u)); break;
-			case 22: op = "powm"; if (vs < 0 || vt < 0 || vd < 2 || vd > 46337) continue;      // d = s^t mod d
-				{ TMCG_Bigint pm(*R.p[d]); TMCG_Bigint sm(*R.s[d]);
-				  BOTH(R.p[d]->powm(*R.p[s], *R.p[t], pm), R.s[d]->powm(*R.s[s], *R.s[t], sm)); }
-				break;
-			case 23: op = "powm_ui"; u = rrange(0, 100000); if (vs < 0 || vd < 2 || vd > 46337) continue;
-				{ TMCG_Bigint pm(*R.p[d]); TMCG_Bigint sm(*R.s[d]);
-				  BOTH(R.p[d]->powm_ui(*R.p[s], (unsigned long)u, pm), R.s[d]->powm_ui(*R.s[s], (unsigned long)u, sm)); }
-				break;
-			case 24: op = "cmp";
-				{ json pc = json::array(), sc = json::array();
-				  pc.push_back(bguard([&]() { return json((*R.p[d] == *R.p[s]) ? 1 : 0); })); sc.push_back(bguard([&]() { return json((*R.s[d] == *R.s[s]) ? 1 : 0); }));
-				  pc.push_back(bguard([&]() { return json((*R.p[d] != *R.p[s]) ? 1 : 0); })); sc.push_back(bguard([&]() { return json((*R.s[d] != *R.s[s]) ? 1 : 0); }));
-				  pc.push_back(bguard([&]() { return json((*R.p[d] > *R.p[s]) ? 1 : 0); }));  sc.push_back(bguard([&]() { return json((*R.s[d] > *R.s[s]) ? 1 : 0); }));
-				  pc.push_back(bguard([&]() { return json((*R.p[d] < *R.p[s]) ? 1 : 0); }));  sc.push_back(bguard([&]() { return json((*R.s[d] < *R.s[s]) ? 1 : 0); }));
-				  pc.push_back(bguard([&]() { return json((*R.p[d] >= *R.p[s]) ? 1 : 0); })); sc.push_back(bguard([&]() { return json((*R.s[d] >= *R.s[s]) ? 1 : 0); }));
-				  pc.push_back(bguard([&]() { return json((*R.p[d] <= *R.p[s]) ? 1 : 0); })); sc.push_back(bguard([&]() { return json((*R.s[d] <= *R.s[s]) ? 1 : 0); }));
-				  e["pc"] = pc; e["sc"] = sc; e["pv"] = R.pj(d); e["sv"] = R.sj(d); }
-				break;
-			default: op = "obs"; u = (rnd(2) == 0) ? labs(vd) : rrange(0, 40000);          // comparisons with a word, size, get_ui, primality
-				{ json pc = json::array(), sc = json::array();
-				  unsigned long uu = (unsigned long)u;
-				  pc.push_back(bguard([&]() { return json((*R.p[d] > uu) ? 1 : 0); }));  sc.push_back(bguard([&]() { return json((*R.s[d] > uu) ? 1 : 0); }));
-				  pc.push_back(bguard([&]() { return json((*R.p[d] < uu) ? 1 : 0); }));  sc.push_back(bguard([&]() { return json((*R.s[d] < uu) ? 1 : 0); }));
-				  pc.push_back(bguard([&]() { return json((*R.p[d] >= uu) ? 1 : 0); })); sc.push_back(bguard([&]() { return json((*R.s[d] >= uu) ? 1 : 0); }));
-				  pc.push_back(bguard([&]() { return json((*R.p[d] <= uu) ? 1 : 0); })); sc.push_back(bguard([&]() { return json((*R.s[d] <= uu) ? 1 : 0); }));
-				  pc.push_back(bguard([&]() { return json((*R.p[d] == uu) ? 1 : 0); })); sc.push_back(bguard([&]() { return json((*R.s[d] == uu) ? 1 : 0); }));
-				  e["pc"] = pc; e["sc"] = sc;
-				  e["psz"] = (long)R.p[d]->size(2); e["ssz"] = (long)R.s[d]->size(2);
-				  if (vd >= 0) { e["pui"] = (long)R.p[d]->get_ui(); e["sui"] = (long)R.s[d]->get_ui(); e["ppr"] = R.p[d]->probab_prime(TMCG_MR_ITERATIONS) ? 1 : 0; }
-				  else { e["pui"] = -1; e["sui"] = -1; e["ppr"] = -1; }
-				  e["pv"] = R.pj(d); e["sv"] = R.sj(d); }
-				break;
-			}
-			e["op"] = op; e["u"] = u;
-			// the registers as they are now (projection of the whole state)
-			json pr = json::array(), sr = json::array();
-			for (int i = 0; i < NREG; i++) { pr.push_back(R.pj(i)); sr.push_back(R.sj(i)); }
-			e["pr"] = pr; e["sr"] = sr;
-			emit(e);
+			OpSpec o; o.d = (int)rnd(NREG); o.s = (int)rnd(NREG); o.t = (int)rnd(NREG); o.mixed = rnd(4) == 0; o.u = 0;
+			o.op = OPS[rnd(st < 4 ? 2 : 26)];
+			// the property speaks about non-negative operands: a negative register is mostly brought back first
+			for (int i = 0; i < NREG; i++) if (R.pv(i) < 0 && rnd(10) < 6) { o.op = "abs"; o.d = i; }
+			long vd = R.pv(o.d);
+			if (o.op == "set_ui") { o.u = (rnd(3) == 0) ? rrange(0, 12) : rrange(0, 32767); if (rnd(9) == 0) o.u = rrange(0, BIG - 1); }
+			else if (o.op == "add_ui" || o.op == "sub_ui" || o.op == "mod_ui") o.u = rrange(rnd(5) == 0 ? 0 : 1, 40000);
+			else if (o.op == "mul_ui") o.u = rrange(0, 32767);
+			else if (o.op == "div_ui") o.u = rrange(1, 300);
+			else if (o.op == "mul2exp" || o.op == "div2exp") o.u = rrange(0, 12);
+			else if (o.op == "powm_ui") o.u = rrange(0, 100000);
+			else if (o.op == "obs") o.u = (rnd(2) == 0) ? labs(vd) : rrange(0, 40000);
+			if (o.op == "mod_ui" && o.u == 0) o.u = 1;
+			if (!(o.op == "set" || o.op == "add" || o.op == "sub" || o.op == "mul" || o.op == "div" || o.op == "mod")) o.mixed = false;
+			if (!admissible(R, o)) continue;
+			emit(exec_op(R, o));
 		}
 	}
+}
+// direction A: an operation sequence generated by TLC on fresh registers
+static json do_big(const json &c) {
+	Regs R;
+	json rr = json::array();
+	for (size_t i = 0; i < c["init"].size() && i < (size_t)NREG; i++) { *R.p[i] = c["init"][i].get<unsigned long>(); *R.s[i] = c["init"][i].get<unsigned long>(); }
+	for (size_t k = 0; k < c["ops"].size(); k++) {
+		const json &q = c["ops"][k];
+		OpSpec o; o.op = q["op"].get<std::string>(); o.d = q["d"].get<int>(); o.s = q["s"].get<int>(); o.t = 0; o.u = q["u"].get<long>(); o.mixed = q["mx"].get<int>() != 0;
+		rr.push_back(exec_op(R, o));
+	}
+	json o; o["f"] = "big"; o["r"] = rr;
+	return o;
 }
 
 static long rand_prime(long lo, long hi) {
